@@ -45,6 +45,18 @@ const fn montgomery_reduction_inner(
     meta_carry
 }
 
+/// Verification hook: forwards to the private [`montgomery_reduction_inner`]
+/// (caller-provided buffers; returns `meta_carry`).
+#[cfg(crypto_bigint_verif)]
+pub(crate) const fn verif_montgomery_reduction_inner(
+    upper: &mut [Limb],
+    lower: &mut [Limb],
+    modulus: &[Limb],
+    mod_neg_inv: Limb,
+) -> Limb {
+    montgomery_reduction_inner(upper, lower, modulus, mod_neg_inv)
+}
+
 /// Algorithm 14.32 in Handbook of Applied Cryptography <https://cacr.uwaterloo.ca/hac/about/chap14.pdf>
 pub const fn montgomery_reduction<const LIMBS: usize>(
     lower_upper: &(Uint<LIMBS>, Uint<LIMBS>),
